@@ -35,6 +35,11 @@ impl MioListener {
     }
 
     pub(crate) fn accept(&self) -> io::Result<MioStream> {
+        #[cfg(actix_net_verif)]
+        if let Some(err) = verif::take_injected(self) {
+            return Err(err);
+        }
+
         match *self {
             MioListener::Tcp(ref lst) => lst.accept().map(|(stream, _)| MioStream::Tcp(stream)),
             #[cfg(unix)]
@@ -290,5 +295,34 @@ mod tests {
             assert!(format!("{:?}", lst).contains("/tmp/sock.xxxxx"));
             assert!(format!("{}", lst).contains("/tmp/sock.xxxxx"));
         }
+    }
+}
+
+/// Verification hook (compiled only with `--cfg actix_net_verif`): one-shot accept errors.
+#[cfg(actix_net_verif)]
+pub(crate) mod verif {
+    use std::{cell::RefCell, io, os::unix::io::AsRawFd};
+
+    use super::MioListener;
+
+    thread_local! {
+        static INJECTED: RefCell<Vec<(i32, io::Error)>> = RefCell::new(Vec::new());
+    }
+
+    /// The next `accept()` on the listener with descriptor `fd` returns `err` instead of accepting.
+    pub(crate) fn inject(fd: i32, err: io::Error) {
+        INJECTED.with(|v| v.borrow_mut().push((fd, err)));
+    }
+
+    pub(super) fn take_injected(lst: &MioListener) -> Option<io::Error> {
+        let fd = match *lst {
+            MioListener::Tcp(ref l) => l.as_raw_fd(),
+            MioListener::Uds(ref l) => l.as_raw_fd(),
+        };
+        INJECTED.with(|v| {
+            let mut v = v.borrow_mut();
+            let pos = v.iter().position(|(f, _)| *f == fd)?;
+            Some(v.remove(pos).1)
+        })
     }
 }
